@@ -3,7 +3,7 @@
    code; fake worker processes) must be a behaviour of Pool -- for some choice of the two design switches at each
    step; the observed state decides which -- with the C32 clauses evaluated in every state reached.
 
-   Trace file (IOEnv.TRACE_FILE): JSON array of [mi, rounds, rpc0, cpc0, ev |-> <<event, ...>>]; one event per
+   Trace file (IOEnv.TRACE_FILE): JSON array of [mi, rounds, nkeys, rpc0, cpc0, ev |-> <<event, ...>>]; one event per
    scheduler step / environment action:
      a      "B" | "R" | "C" | "Tick" | "Die"       k   borrower or worker number      kind   script run in a BUse step
      lab    park label of the stepping thread after the step
@@ -24,7 +24,7 @@ CLabel(p) == CASE p = "start" -> "start" [] p = "join" -> "join" [] p = "drain" 
 
 T == Traces[tid]
 TraceInit == /\ tid \in 1..Len(Traces) /\ l = 1 /\ Init
-             /\ maxIdle = T.mi /\ nRounds = T.rounds /\ rpc = T.rpc0 /\ cpc = T.cpc0
+             /\ maxIdle = T.mi /\ nRounds = T.rounds /\ nKeys = T.nkeys /\ rpc = T.rpc0 /\ cpc = T.cpc0
 Ev == T.ev[l]
 Consume == l <= Len(T.ev) /\ l' = l + 1 /\ UNCHANGED tid
 
